@@ -13,7 +13,9 @@ CONSTANTS Types,      \* set of data types (strings)
           PluginOf,   \* PluginOf[d]: the plugin (a string) providing d
           DepsOf,     \* DepsOf[p]: sequence of data types plugin p depends on (depends_on order)
           SaveWhen,   \* SaveWhen[d] \in {"NEVER", "EXPLICIT", "TARGET", "ALWAYS"}
-          Writable    \* number of writable storage frontends that accept every type (1 or 2)
+          Writable,   \* number of writable storage frontends that accept every type (1 or 2)
+          FEConfigs   \* frontend configurations for the second family of cases: set of sequences of
+                      \* [ro |-> BOOLEAN, only |-> set of types ({} = no take_only filter), excl |-> set of types]
 
 Plugins == {PluginOf[d] : d \in Types}
 Provides(p) == {d \in Types : PluginOf[d] = p}
@@ -95,6 +97,35 @@ PartialSavesNothing == Partial(c) => ToSave(c) = {}
 Minimal == /\ ToCompute(c) \cap c.stored = {}
            /\ \A d \in Needed(c) \ {c.target} : \E e \in ToCompute(c) : \E i \in 1..Len(DepsOf[PluginOf[e]]) : DepsOf[PluginOf[e]][i] = d
 
+(* ------------------------------- several storage frontends -------------------------------
+   StorageFrontend._we_take / find / saver, Context._get_partial_loader_for (first frontend, in storage order, that
+   takes the type and has it), Context._add_saver (every frontend that is not read-only and takes the type).
+   A case of this family: c = [fe, has, target, save, mod, forbid] with has[f] = the types physically present in f.  *)
+NF(q) == Len(q.fe)
+TakesFE(q, f, d) == ~(d \in q.fe[f].excl \/ (q.fe[f].only # {} /\ d \notin q.fe[f].only))
+StoredFE(q) == {d \in Types : \E f \in 1..NF(q) : TakesFE(q, f, d) /\ d \in q.has[f]}
+Req(q) == [stored |-> StoredFE(q), target |-> q.target, save |-> q.save, mod |-> q.mod, forbid |-> q.forbid]
+\* P-level: where a loaded type comes from, where a saved type goes
+LoadFromP(q, d) == CHOOSE f \in 1..NF(q) : TakesFE(q, f, d) /\ d \in q.has[f] /\ \A g \in 1..(f - 1) : ~(TakesFE(q, g, d) /\ d \in q.has[g])
+SaveIntoP(q, d) == {f \in 1..NF(q) : ~q.fe[f].ro /\ TakesFE(q, f, d)}
+\* I-level: the loops as written
+RECURSIVE FindLoader(_, _, _)
+FindLoader(q, d, f) == IF f > NF(q) THEN 0 ELSE IF TakesFE(q, f, d) /\ d \in q.has[f] THEN f ELSE FindLoader(q, d, f + 1)
+RECURSIVE AddSaver(_, _, _, _)
+AddSaver(q, d, f, acc) == IF f > NF(q) THEN acc
+                          ELSE IF q.fe[f].ro THEN AddSaver(q, d, f + 1, acc)
+                          ELSE IF TakesFE(q, f, d) THEN AddSaver(q, d, f + 1, acc \cup {f}) ELSE AddSaver(q, d, f + 1, acc)
+InitFE == c \in [fe : FEConfigs, has : [1..2 -> SUBSET Types], target : Types, save : SUBSET {d \in Types : SaveWhen[d] = "EXPLICIT"},
+                 mod : {"none"}, forbid : {"none"}]
+SpecFE == InitFE /\ [][UNCHANGED c]_vars
+ConformsFE == LET r == Req(c) res == Result(r) IN
+              /\ MustError(r) = (res.err # "")
+              /\ ~MustError(r) => /\ res.loaders = ToLoad(r) /\ res.compute = ToCompute(r) /\ res.savers = ToSave(r) /\ OneOrigin(r)
+                                  /\ \A d \in ToLoad(r) : FindLoader(c, d, 1) = LoadFromP(c, d)
+                                  /\ \A d \in ToSave(r) : AddSaver(c, d, 1, {}) = SaveIntoP(c, d)
+\* never written: a read-only frontend, a type a frontend does not take; a type stored only where it is not taken counts as missing
+NoWriteToReadonly == \A d \in Types : \A f \in SaveIntoP(c, d) : ~c.fe[f].ro /\ TakesFE(c, f, d)
+
 SetToSeq(S) == LET RECURSIVE f(_)
                    f(T) == IF T = {} THEN <<>> ELSE LET x == CHOOSE y \in T : TRUE IN <<x>> \o f(T \ {x})
                IN f(S)
@@ -104,4 +135,9 @@ Emit == PrintT(ToJson([stored |-> SetToSeq(c.stored), target |-> c.target, save 
                                    ELSE IF MustError(c) THEN "any" ELSE "",
                        load |-> SetToSeq(ToLoad(c)), compute |-> SetToSeq(ToCompute(c)), run |-> SetToSeq(ToRun(c)),
                        saves |-> SetToSeq(ToSave(c))]))
+EmitFE == LET r == Req(c) IN
+          PrintT(ToJson([fe |-> c.fe, has |-> [f \in 1..2 |-> SetToSeq(c.has[f])], target |-> c.target, save |-> SetToSeq(c.save),
+                         error |-> MustError(r), load |-> SetToSeq(ToLoad(r)), compute |-> SetToSeq(ToCompute(r)), run |-> SetToSeq(ToRun(r)),
+                         origin |-> [d \in ToLoad(r) |-> IF MustError(r) THEN 0 ELSE LoadFromP(c, d)],
+                         saves |-> [f \in 1..2 |-> IF MustError(r) THEN <<>> ELSE SetToSeq({d \in ToSave(r) : f \in SaveIntoP(c, d)})]]))
 =============================================================================
